@@ -1452,6 +1452,8 @@ def cases(tier):
     cs += c04_dq.lookat_cases(tier, sys.modules[__name__])
     cs += canaries()
     cs += c04_dq.canaries(sys.modules[__name__])
+    from rules import narrow
+    cs += narrow.cases(cs, 'C04')
     return cs
 
 
